@@ -6,14 +6,22 @@
 (* because "every event returns the updated output" is part of the property.             *)
 EXTENDS Integers
 
-CONSTANTS NoMod          \* model value standing for modulo=None (must not be a positive int)
+CONSTANTS
+    \* @type: Int;
+    NoMod          \* model value standing for modulo=None (must not be a positive int)
 
-VARIABLES val,           \* the counter's output (= internal state)
-          mod,           \* modulo M > 0 or NoMod        (configuration, never changes)
-          initv,         \* initdef                       (configuration, never changes)
-          ret            \* result of the last event: [ok |-> BOOLEAN, v |-> Int]
+VARIABLES
+    \* @type: Int;
+    val,           \* the counter's output (= internal state)
+    \* @type: Int;
+    mod,           \* modulo M > 0 or NoMod        (configuration, never changes)
+    \* @type: Int;
+    initv,         \* initdef                       (configuration, never changes)
+    \* @type: { ok: Bool, v: Int };
+    ret            \* result of the last event: [ok |-> BOOLEAN, v |-> Int]
 
 vars == <<val, mod, initv, ret>>
+\* @type: <<Int, Int>>;
 conf == <<mod, initv>>
 
 Red(v) == IF mod = NoMod THEN v ELSE v % mod      \* TLA+ % on a positive modulus is in 0..M-1
